@@ -54,6 +54,23 @@ fn f(n: int) -> int { println(n); f(n + 1) }
     println("end");
 }
 `},
+	// a core blocked in a long-running builtin when the cancellation arrives: the builtin is given
+	// the context and has to give up at its next look at it
+	{Name: "one-long-sleep", Infinite: false, Own: "ok", Full: "before\nafter\n", TreeOK: true, Source: `fn main() {
+    println("before");
+    time.sleep(3.0);
+    println("after");
+}
+`},
+	{Name: "spawned-core-in-long-sleep", Infinite: false, Own: "ok", Full: "m\nw\n", Source: `fn main() {
+    spawn w();
+    println("m");
+}
+fn w() {
+    time.sleep(3.0);
+    println("w");
+}
+`},
 	{Name: "spawned-infinite", Infinite: true, Source: `fn main() {
     spawn w();
     println("m");
@@ -111,13 +128,18 @@ func init() {
 	c10Progs = append(c10Progs, cancelProg{Name: "tight-loop-in-spawned-core", Infinite: true, Source: "fn main() {\n    spawn w();\n}\nfn w() { let r = true; while r { } }\n"})
 }
 
+// virtual time is measured in Sleep operations of all threads: after the cancellation every
+// core may finish the sleep it is in, Wait polls a few times; a builtin that sleeps on in
+// 10 ms slices for seconds shows as hundreds
+const c10MaxSleepsAfterCancel = 40
+
 const c10MaxLinesAfterCancel = 110 // one 50-instruction quantum per core (at most 2 printing cores)
 
 func lineCount(s string) int { return strings.Count(s, "\n") }
 
 func c10Body(h *hostEnv, prog compiler.CompileOutput) {
 	h.ctx.OnFire = func(reason string) {
-		h.log("cancel:%s lines=%d", reason, lineCount(h.rec.out.String()))
+		h.log("cancel:%s lines=%d sleeps=%d", reason, lineCount(h.rec.out.String()), vsched.Sleeps())
 	}
 	vm := h.newVM(prog, runtime.CoreLimits{CallStackMaxSize: 40, StackMaxSize: 200, MaxMemorySize: 400})
 	vsched.GoLow(func() {
@@ -128,23 +150,24 @@ func c10Body(h *hostEnv, prog compiler.CompileOutput) {
 	_, i := vm.Wait()
 	o := Obs{}
 	classifyVM(&o, i, nil)
-	h.log("wait:%s%s lines=%d", o.Class, kindSuffix(o.Kind), lineCount(h.rec.out.String()))
+	h.log("wait:%s%s lines=%d sleeps=%d", o.Class, kindSuffix(o.Kind), lineCount(h.rec.out.String()), vsched.Sleeps())
 	h.log("unfinished-at-return:%s", vsched.UnfinishedDesc())
 }
 
 func c10Judge(p cancelProg) func(o execObs) (string, string) {
 	return func(o execObs) (string, string) {
 		var cancelLines = -1
+		cancelSleeps, waitSleeps := -1, 0
 		wait := ""
 		waitLines := 0
 		unfinished := ""
 		for _, e := range o.Events {
 			switch {
 			case strings.HasPrefix(e, "cancel:"):
-				fmt.Sscanf(e[strings.Index(e, "lines="):], "lines=%d", &cancelLines)
+				fmt.Sscanf(e[strings.Index(e, "lines="):], "lines=%d sleeps=%d", &cancelLines, &cancelSleeps)
 			case strings.HasPrefix(e, "wait:"):
 				wait = strings.Fields(e[5:])[0]
-				fmt.Sscanf(e[strings.Index(e, "lines="):], "lines=%d", &waitLines)
+				fmt.Sscanf(e[strings.Index(e, "lines="):], "lines=%d sleeps=%d", &waitLines, &waitSleeps)
 			case strings.HasPrefix(e, "unfinished-at-return:"):
 				unfinished = strings.TrimPrefix(e, "unfinished-at-return:")
 			}
@@ -172,6 +195,9 @@ func c10Judge(p cancelProg) func(o execObs) (string, string) {
 		}
 		if cancelLines >= 0 && lineCount(o.Out)-cancelLines > c10MaxLinesAfterCancel {
 			return "SLOW-STOP:cores kept running after cancellation", d
+		}
+		if cancelSleeps >= 0 && waitSleeps-cancelSleeps > c10MaxSleepsAfterCancel {
+			return "SLOW-STOP:cores kept sleeping after cancellation", d
 		}
 		_ = unfinished
 		return "", ""
